@@ -32,6 +32,15 @@ def run(ctx):
     if getattr(ctx, "selftest", False):
         return selftest(ctx)
 
+    fast = bool(os.environ.get("VERIF_C14_FAST"))   # development / mutation runs: skip the code-independent design-level part
+    if fast:
+        ctx.assumptions.append("VERIF_C14_FAST: design-level model checking skipped in this run")
+    else:
+        design_level(ctx)
+    implementation_level(ctx, fast)
+
+
+def design_level(ctx):
     # ---- 1. design level
     ctx.tlc_mc("MC_Session", "MC_Session.cfg", timeout=900, workers=8)
     if not ctx.quick():
@@ -44,8 +53,20 @@ def run(ctx):
         leads[inv] = {"lead": what, "counterexample_states": len(re.findall(r"\nState \d+: ", out))}
     ctx.extra["asis_design_leads"] = leads
 
+
+
+def implementation_level(ctx, fast):
     drv = ctx.build_go("c14")
 
+    only = [x for x in os.environ.get("VERIF_C14_ONLY", "").split(",") if x]   # development / mutation runs
+    if only:
+        ctx.assumptions.append("VERIF_C14_ONLY=%s: reduced run" % ",".join(only))
+    if not only or "codec" in only:
+        codec_level(ctx, drv)
+    session_level(ctx, drv, fast, only)
+
+
+def codec_level(ctx, drv):
     # ---- 2. codec
     cases, _ = ctx.tlc_gen("MC_Session_codec", "MC_Session_codec.cfg", timeout=300)
     if len(cases) < 500:
@@ -56,15 +77,20 @@ def run(ctx):
     ctx.run_drv(drv, ["codec", "-cases", cp, "-out", ct], timeout=300)
     judge(ctx, ct, "codec")
 
+
+
+def session_level(ctx, drv, fast, only):
     # ---- 3. real session
     plan = [  # (mode, n, ops/rounds, k)
         ("probe", 7, 0, 1),
-        ("seq", ctx.pick(200, 2500), 12, 1),
+        ("seq", 60 if fast else ctx.pick(200, 2500), 12, 1),
         ("burst", ctx.pick(30, 300), 3, 3),
         ("burst", ctx.pick(6, 60), 2, 8),
-        ("burst-sameid", ctx.pick(4, 16), 2, ctx.pick(4, 8)),
+        ("burst-sameid", ctx.pick(3, 8), 2, ctx.pick(4, 8)),
     ]
     for i, (mode, n, ops, k) in enumerate(plan):
+        if only and mode not in only:
+            continue
         chunk = 400 if mode == "seq" else 60
         done = 0
         part = 0
@@ -77,6 +103,10 @@ def run(ctx):
             judge(ctx, tp, mode)
             done += m
             part += 1
+    if only:
+        return
+    if ctx.extra.get("traces_abandoned_env", 0) * 10 > ctx.cov["evaluations"] - 1215:
+        raise vlib.MachineryError("more than 10%% of the histories were abandoned for environment failures (%d)" % ctx.extra["traces_abandoned_env"])
     if ctx.obligation_counts.get("C14.obs", 0) == 0 or ctx.obligation_counts.get("C14.restart", 0) == 0:
         raise vlib.MachineryError("core obligations were never evaluated (vacuous run)")
 
@@ -166,6 +196,8 @@ def account(ctx, traces):
         ctx.oblig("C14.restart", sum(1 for e in calls if e["name"] == "Reopen"))
         ctx.oblig("C14.compact", sum(1 for e in calls if e["name"] == "Compact"))
         ctx.oblig("C14.rpc", sum(1 for e in calls if e.get("rpc")))
+        if any(e.get("r_res") == "env" for e in calls):
+            ctx.extra["traces_abandoned_env"] = ctx.extra.get("traces_abandoned_env", 0) + 1
         conc = 0
         open_n = 0
         for e in evs:
@@ -198,7 +230,7 @@ def report(ctx, trace, pos, tag, mode):
         what = "resume record with %s does not read back equal (%s)" % (dev or "all defaults", tag)
         if sig in ctx.extra.setdefault("codec_signature_counts", {}):
             ctx.extra["codec_signature_counts"][sig] += 1
-            return
+            return False
         ctx.extra["codec_signature_counts"][sig] = 1
     else:
         sig = "tag=%s class=%s op=%s res=%s" % (tag, cls, last_call.get("name"), last_call.get("r_res"))
@@ -213,7 +245,7 @@ def report(ctx, trace, pos, tag, mode):
                          "db": [(o["id"], o["port"], o["started"]) for o in e["db"]], "invalid": e["invalid"]})
         else:
             slim.append({k: v for k, v in e.items() if k not in ("st", "loaded")})
-    ctx.violation(tag, sig, what, {"history": slim[-60:], "event": ev if ev.get("op") != "obs" else slim[-1]})
+    return ctx.violation(tag, sig, what, {"history": slim[-60:], "event": ev if ev.get("op") != "obs" else slim[-1]})
 
 
 def judge(ctx, tp, mode):
@@ -223,6 +255,7 @@ def judge(ctx, tp, mode):
         ctx.sample({"mode": mode, "trace_prefix": [{k: v for k, v in json.loads(x).items() if k in
                     ("op", "g", "name", "id", "r_res", "r_port", "avail", "mode")} for x in traces[0][:10]]})
     remaining = traces
+    unlisted = 0
     for attempt in range(40):
         if not remaining:
             return
@@ -253,7 +286,11 @@ def judge(ctx, tp, mode):
                                       % (res["hwm"], tp, res["out"][-2500:]))
         vline, tag = res["viol"]
         i, pos = locate(vline)
-        report(ctx, remaining[i], pos, tag, mode)
+        if report(ctx, remaining[i], pos, tag, mode):
+            unlisted += 1
+            if unlisted >= 3:      # enough evidence from this file; every further violating history costs one more TLC run
+                vlib.log("3 unlisted violations in %s: the rest of the file is not judged" % os.path.basename(tp))
+                return
         ctx.cov["traces_validated_against_impl"] += i      # the traces before the violating one were accepted
         remaining = remaining[i + 1:]
     raise vlib.MachineryError("too many violating traces in %s" % tp)
